@@ -50,7 +50,7 @@ use verif_harness::*;
 
 const HASH_MASK: u64 = 2147483647;
 const DRAIN_CAP: usize = 4096;
-const WATCHDOG_MS: u64 = 8000;
+const WATCHDOG_MS: u64 = 60000;
 
 fn watchdog_ms() -> u64 {
     std::env::var("C14_WATCHDOG_MS").ok().and_then(|s| s.parse().ok()).unwrap_or(WATCHDOG_MS)
@@ -897,7 +897,7 @@ fn stream_case(c: &mut Case) -> Result<Vec<u64>, BadCase> {
     let pb = take_ops(c, 8)?;
     let pc = take_ops(c, 7)?;
     let pd = take_ops(c, 8)?;
-    if c.i != c.v.len() {
+    if c.i != c.v.len() || (plen < 256 && pb.iter().chain(pd.iter()).any(|o| o.k == 8)) {
         return Err(BadCase);
     }
     let rt = build_rt(drv, plen, psize)?;
@@ -1327,6 +1327,8 @@ fn dgram_case(c: &mut Case) -> Result<Vec<u64>, BadCase> {
     let n = c.take()? as usize;
     if tr > 2 || seed > 60000 || nsend == 0 || nsend > 4 || window == 0 || window > 8 || n > 64
         || mkind > 3 || mcount as usize > n || (mkind == 0) != (mcount == 0) || (mkind > 0 && tr != 0)
+        // a multishot recvmsg buffer also holds the 16-byte header and the 128-byte name area
+        || (mkind >= 2 && plen < 256)
     {
         return Err(BadCase);
     }
